@@ -9,6 +9,7 @@
 package act
 
 import (
+	"context"
 	"fmt"
 	"runtime"
 	"sort"
@@ -31,9 +32,13 @@ type Gate struct {
 	Arg   string // canonical text of the arguments
 	Info  any    // free-form (e.g. the raw argument)
 	Stack string // names of the calling functions (innermost first), to tell call sites apart
+	Ctx   context.Context // the caller's context, if it passed one (cancelled callers can be released at once)
 	seq   int
 	reply chan Directive
 }
+
+// Cancelled reports whether the caller's context is already cancelled.
+func (g *Gate) Cancelled() bool { return g.Ctx != nil && g.Ctx.Err() != nil }
 
 func (g *Gate) String() string { return fmt.Sprintf("%s.%s(%s)", g.Comp, g.Op, g.Arg) }
 
@@ -55,10 +60,15 @@ func New() *Sched { return &Sched{Tick: 2 * time.Millisecond} }
 
 // Enter is called by component goroutines (inside the bubble): parks until released.
 func (s *Sched) Enter(comp, op, arg string, info any) Directive {
+	return s.EnterCtx(nil, comp, op, arg, info)
+}
+
+// EnterCtx is Enter that also records the caller's context.
+func (s *Sched) EnterCtx(ctx context.Context, comp, op, arg string, info any) Directive {
 	if s.Free {
 		return Directive{}
 	}
-	g := &Gate{Comp: comp, Op: op, Arg: arg, Info: info, reply: make(chan Directive), Stack: callers()}
+	g := &Gate{Comp: comp, Op: op, Arg: arg, Info: info, reply: make(chan Directive), Stack: callers(), Ctx: ctx}
 	s.mu.Lock()
 	s.seq++
 	g.seq = s.seq
@@ -69,7 +79,7 @@ func (s *Sched) Enter(comp, op, arg string, info any) Directive {
 
 func callers() string {
 	pcs := make([]uintptr, 16)
-	n := runtime.Callers(3, pcs)
+	n := runtime.Callers(4, pcs)
 	frames := runtime.CallersFrames(pcs[:n])
 	var sb strings.Builder
 	for {
@@ -126,6 +136,25 @@ func (s *Sched) Release(g *Gate, d Directive) {
 func (s *Sched) Settle(maxTicks int) []*Gate {
 	synctest.Wait()
 	for i := 0; i < maxTicks && len(s.Parked()) == 0; i++ {
+		time.Sleep(s.Tick)
+		synctest.Wait()
+	}
+	return s.Parked()
+}
+
+// SettleIf is Settle that advances the clock while no parked gate satisfies live (gates that the
+// harness will never release — e.g. a poll that would see nothing new — must not stop the clock).
+func (s *Sched) SettleIf(maxTicks int, live func(*Gate) bool) []*Gate {
+	synctest.Wait()
+	anyLive := func() bool {
+		for _, g := range s.Parked() {
+			if live(g) {
+				return true
+			}
+		}
+		return false
+	}
+	for i := 0; i < maxTicks && !anyLive(); i++ {
 		time.Sleep(s.Tick)
 		synctest.Wait()
 	}
